@@ -19,8 +19,9 @@ def build(tier=None):
         return _built["r"]
     p, e2, d2 = vlib.build_harness("prog")
     if p is None:
-        _built["r"] = (None, e2, d1 + d2)
-        return _built["r"]
+        # the behavioural program uses the generated API as a user crate would: when it no longer COMPILES, that is reported per case (below) while the
+        # structural cases still run, so that the report can name the definition and the generated signature that changed
+        _built["prog_err"] = e2.split("\n")[0].replace("harness build failed: ", "")[:300]
     _built["gen"], _built["prog"] = g, p
     r, e3, d3 = vlib.build_harness("rt")
     if r is None:
@@ -67,6 +68,10 @@ def run_impl(lines):
         if not idxs:
             continue
         exe = _built["prog"] if k == "prog" else _built["rt"] if k == "rt" else [_built["gen"], k]
+        if exe is None:
+            for i in idxs:
+                out[i] = "!CRASH the behavioural harness (harness/prog: a user crate of the generated API) does not compile against /repo: " + _built.get("prog_err", "")
+            continue
         res = vlib.run_lines(exe, [lines[i] for i in idxs], env=env)
         crashed = [j for j, o in enumerate(res) if o is None or o.startswith("!CRASH")]
         if crashed:
